@@ -27,7 +27,7 @@
 (* program.  This only CHOOSES interesting inputs; no invariant depends on *)
 (* it (MCInterp counts how many guards complete, as a coverage check).     *)
 (***************************************************************************)
-EXTENDS RefEval, Randomization, IOUtils, TLC
+EXTENDS RefEval, Randomization, IOUtils, TLC, SequencesExt
 
 Tier == IF "TIER" \in DOMAIN IOEnv THEN IOEnv.TIER ELSE "quick"
 Thorough == Tier = "thorough"
@@ -64,15 +64,22 @@ LSmall == {QNil, Q02, Q80, QV5, P02, P05}                               \* 6
 LTiny == {Q01, QFFFF, P02}                                              \* 3
 
 L1 == IF Smoke THEN LSmall ELSE LFull
-L2 == IF Smoke THEN LTiny ELSE IF Thorough THEN LFull ELSE LMed
-L3 == IF Smoke THEN LTiny ELSE LSmall
+L2 == IF Smoke THEN LTiny ELSE LFull
+L3 == IF Smoke THEN LTiny ELSE IF Thorough THEN LMed ELSE LSmall
 L4 == LTiny
 
+\* argument tuples of length n over the rich alphabets (used for the arities an operator accepts) ...
 Args(n) == CASE n = 0 -> {<< >>}
              [] n = 1 -> {<< a >> : a \in L1}
              [] n = 2 -> {<< a, b >> : a \in L2, b \in L2}
              [] n = 3 -> {<< a, b, c >> : a \in L3, b \in L3, c \in L3}
              [] n = 4 -> {<< a, b, c, d >> : a \in L4, b \in L4, c \in L4, d \in L4}
+\* ... and over the tiny alphabet (used for the WRONG arities: the arguments are evaluated, then the call fails)
+ArgsTiny(n) == CASE n = 0 -> {<< >>}
+                 [] n = 1 -> {<< a >> : a \in LTiny}
+                 [] n = 2 -> {<< a, b >> : a \in LTiny, b \in LTiny}
+                 [] n = 3 -> {<< a, b, c >> : a \in LTiny, b \in LTiny, c \in LTiny}
+                 [] n = 4 -> {<< a, b, c, d >> : a \in LTiny, b \in LTiny, c \in LTiny, d \in LTiny}
 
 Call(o, args) == P(Op(o), L(args))
 U(p, e, k) == [p |-> p, e |-> e, k |-> k]
@@ -84,17 +91,31 @@ Binary == {4, 9, 10, 19, 20, 21, 22, 23, 61}
 Ternary == {3, 60}
 Variadic == {11, 14, 16, 17, 18, 24, 25, 26, 33, 34}
 ClassicOpcodes == ClassicOps                        \* RefEval
-Arities(o) == IF o \in Unary THEN {0, 1, 2}
-              ELSE IF o \in Binary THEN {1, 2, 3}
-              ELSE IF o \in Ternary THEN {2, 3, 4}
-              ELSE IF o = 12 THEN {1, 2, 3, 4}
-              ELSE IF o = 8 THEN {0, 1, 2}
-              ELSE {0, 1, 2, 3}
+\* arities the operator accepts, and the wrong arities next to them
+Valid(o) == IF o \in Unary THEN {1}
+            ELSE IF o \in Binary THEN {2}
+            ELSE IF o \in Ternary THEN {3}
+            ELSE IF o = 12 THEN {2, 3}
+            ELSE IF o = 8 THEN {0, 1}
+            ELSE {0, 1, 2, 3}
+Wrong(o) == IF o \in Unary THEN {0, 2}
+            ELSE IF o \in Binary THEN {1, 3}
+            ELSE IF o \in Ternary THEN {2, 4}
+            ELSE IF o = 12 THEN {1, 4}
+            ELSE IF o = 8 THEN {2}
+            ELSE {}
 
 OpClass(o) == IF o \in ClassicOpcodes THEN "op" ELSE "newop"
-D1Progs(o) == {Call(o, a) : a \in UNION {Args(n) : n \in Arities(o)}}
 D1Ops == Unary \cup Binary \cup Ternary \cup Variadic \cup {8, 12}
-D1 == UNION {{U(p, E1, OpClass(o)) : p \in D1Progs(o)} : o \in D1Ops}
+
+\* TLC evaluates  S \cup T  and  UNION {S, T}  of enumerated sets with a LINEAR membership search per element
+\* (measured: the 10^5-element universe did not finish in 8 minutes).  The universe is therefore a SEQUENCE:
+\* every component is one set comprehension (no membership tests), turned into a sequence (one sort) and the
+\* sequences are concatenated.  A program that occurs in two components is simply explored twice.
+D1V(n) == {U(Call(o, a), E1, OpClass(o)) : o \in {o \in D1Ops : n \in Valid(o)}, a \in Args(n)}
+D1W(n) == {U(Call(o, a), E1, OpClass(o)) : o \in {o \in D1Ops : n \in Wrong(o)}, a \in ArgsTiny(n)}
+D1Seq == SetToSeq(D1V(0)) \o SetToSeq(D1V(1)) \o SetToSeq(D1V(2)) \o SetToSeq(D1V(3))
+           \o SetToSeq(D1W(0)) \o SetToSeq(D1W(1)) \o SetToSeq(D1W(2)) \o SetToSeq(D1W(3)) \o SetToSeq(D1W(4))
 
 \* coinid needs 32-byte operands
 CoinidArgs == {Q(V32), QV5, P02}
@@ -193,31 +214,36 @@ GuardArg == {Call(4, << g, Q01 >>) : g \in {Guard(Declared(k, p, Nil), x, p, Nil
                                               k \in {"right", "plus1", "huge63"}, x \in Exts, p \in {Q01, P02}}}
               \cup {Call(4, << g, g >>) : g \in {Guard(Declared("right", Q01, Nil), x, Q01, Nil) : x \in Exts}}
 
-GuardProgs == Guards1 \cup Guards2 \cup Guards3 \cup GuardArity \cup Nested \cup GuardArg
+GuardProgs == UNION {Guards1, Guards2, Guards3, GuardArity, Nested, GuardArg}
 GuardsU == {U(p, E1, "guard") : p \in GuardProgs}
 
 ---------------------------------------------------------------------------
 (* depth 2 *)
-Base1 == D1 \cup Coinid \cup Leaves \cup D1Env \cup Apply \cup HeadPair \cup Improper \cup Unknown \cup GuardsU
+Progs(q) == [i \in 1..Len(q) |-> q[i].p]
+PoolSeq == Progs(D1Seq \o SetToSeq(Apply) \o SetToSeq(HeadPair) \o SetToSeq(Unknown) \o SetToSeq(GuardsU) \o SetToSeq(Improper))
+Sample(n) == {PoolSeq[i] : i \in RandomSubset(n, 1..Len(PoolSeq))}
 
-N1 == IF Smoke THEN 6 ELSE IF Thorough THEN 400 ELSE 80
-N2 == IF Smoke THEN 3 ELSE IF Thorough THEN 40 ELSE 14
-N3 == IF Smoke THEN 2 ELSE IF Thorough THEN 12 ELSE 5
+N1 == IF Smoke THEN 6 ELSE IF Thorough THEN 1000 ELSE 80
+N2 == IF Smoke THEN 3 ELSE IF Thorough THEN 60 ELSE 14
+N3 == IF Smoke THEN 2 ELSE IF Thorough THEN 20 ELSE 5
 
-ProgsOf(S) == {x.p : x \in S}
-Pool == ProgsOf(D1 \cup Apply \cup HeadPair \cup Unknown \cup GuardsU \cup Improper)
-RA == RandomSubset(N1, Pool)
-RB == RandomSubset(N2, Pool)
-RC == RandomSubset(N3, Pool) \cup LTiny
+RA == Sample(N1)
+RB == Sample(N2)
+RC == Sample(N3) \cup LTiny
 
-D2 == {U(Call(o, << x >>), E1, "depth2") : o \in Unary \cup {16, 8, 11}, x \in RA}
-        \cup {U(Call(o, << x, y >>), E1, "depth2") : o \in Binary \cup Variadic \cup {3, 12}, x \in RB, y \in RC}
-        \cup {U(Call(o, << y, x >>), E1, "depth2") : o \in {4, 16, 17, 19, 12}, x \in RB, y \in RC}
-        \cup {U(Call(3, << c, x, y >>), E1, "depth2") : c \in {QNil, Q01, P02}, x \in RC, y \in RC}
-        \cup {U(Call(2, << Q(x), P01 >>), E1, "depth2") : x \in RA}
-        \cup {U(Guard(Declared(k, x, Nil), ext, x, Nil), E1, "depth2") : k \in {"right", "plus1"}, ext \in {Nil, A(<< 2 >>)}, x \in RB}
+D2Seq ==
+     SetToSeq({U(Call(o, << x >>), E1, "depth2") : o \in Unary \cup {16, 8, 11}, x \in RA})
+  \o SetToSeq({U(Call(o, << x, y >>), E1, "depth2") : o \in Binary \cup Variadic \cup {3, 12}, x \in RB, y \in RC})
+  \o SetToSeq({U(Call(o, << y, x >>), E1, "depth2") : o \in {4, 16, 17, 19, 12}, x \in RB, y \in RC})
+  \o SetToSeq({U(Call(3, << c, x, y >>), E1, "depth2") : c \in {QNil, Q01, P02}, x \in RC, y \in RC})
+  \o SetToSeq({U(Call(2, << Q(x), P01 >>), E1, "depth2") : x \in RA})
+  \o SetToSeq({U(Guard(Declared(k, x, Nil), ext, x, Nil), E1, "depth2") : k \in {"right", "plus1"}, ext \in {Nil, A(<< 2 >>)}, x \in RB})
+  \* guards around sampled programs, declared cost exactly right, in an environment where the paths resolve
+  \o SetToSeq({U(Guard(Declared("right", x, E1), ext, x, E1), E1, "depth2") : ext \in {Nil, A(<< 1 >>)}, x \in RA})
+  \o SetToSeq({U(Call(4, << Guard(Declared("right", x, E1), Nil, x, E1), P01 >>), E1, "depth2") : x \in RB})
 
-Universe == Base1 \cup D2
+UniverseSeq == D1Seq \o SetToSeq(Coinid) \o SetToSeq(Leaves) \o SetToSeq(D1Env) \o SetToSeq(Apply) \o SetToSeq(HeadPair)
+                 \o SetToSeq(Improper) \o SetToSeq(Unknown) \o SetToSeq(GuardsU) \o D2Seq
 
 \* does the program mention anything outside the classic operator set (for MCRefEval)?
 RECURSIVE Atoms(_)
@@ -225,5 +251,5 @@ Atoms(t) == IF IsAtom(t) THEN {t.a} ELSE Atoms(t.f) \cup Atoms(t.r)
 LaterOpcodeAtoms == {<< o >> : o \in {29, 30} \cup (48..65)} \cup {Secp256k1Op, Secp256r1Op}
 \* conservative: an atom that could be dispatched as a later operator occurs anywhere in the program
 ClassicOnly(x) == Atoms(x.p) \cap LaterOpcodeAtoms = {}
-ClassicUniverse == {x \in Universe : ClassicOnly(x)}
+ClassicSeq == SelectSeq(UniverseSeq, ClassicOnly)
 =============================================================================
